@@ -1075,7 +1075,7 @@ def run(ctx):
         check_literal_cases(ctx, gen_literal_cases(ctx.rng, 2500))
         return
     _WORKER_LEAN[0] = ctx.lean
-    jobs = [(ctx.rng.randrange(1 << 30), 500) for _ in range(32)]
+    jobs = [(ctx.rng.randrange(1 << 30), 1000) for _ in range(48)]
     for res in common.parallel_map(_worker, jobs):
         c02._merge(ctx, res)
     total = 1 << len(ENUM_SCOPES)
